@@ -362,10 +362,6 @@ def find_check_cache(context):
                 extra.append(path)
 
         regenerate = regenerate or results[0] != found or results[1] != extra
-        # Fill in the find cache with our results so that if/when we actually
-        # regenerate our build files, we can just reuse the cached values.
-        context.build['find_cache'].add(file_filter, found, extra)
-        context.build['find_dirs'].update(seen_dirs)
 
     if not regenerate:
         # We don't want to regenerate. To make sure the build backend is happy,
